@@ -1086,6 +1086,9 @@ func init() {
 	register("C11", func(c *Ctx) error {
 		// part 2 first (c11wal.go): crash + re-open with WALs in arbitrary version order; its
 		// cases have their own Coq entry point, so they get their own shards
+		if err := runC11LoadOracle(c); err != nil {
+			return err
+		}
 		if err := runC11Wal(c, 30+c.N/2); err != nil {
 			return err
 		}
@@ -1104,6 +1107,9 @@ func init() {
 	})
 	// C14: structure of the levels and the MANIFEST: many small tables, deep compactions
 	register("C14", func(c *Ctx) error {
+		if err := runC14LmaxCompaction(c); err != nil {
+			return err
+		}
 		return runReopenProfile(c, func(i int) *rprofile {
 			p := &rprofile{profile: profile{name: "structure", wBegin: 4, wModify: 16, wGet: 2, wIter: 1, wCommit: 8, wDiscard: 1, wFlush: 8, wCompact: 10, wL0L0: 2, wDump: 1, wBatch: 4,
 				nOps: 70 + c.Rng.Intn(60), keys: keySetA[:4+c.Rng.Intn(8)], allVersions: true, expiry: true, discardBit: true,
